@@ -154,6 +154,10 @@ func cmdCheck(args []string) int {
 	t0 := time.Now()
 	var extraEnv []string
 	pats := []string{".", "./terminfo", "./views", "./terminfo/base", "./terminfo/extended"}
+	if def.WasmLoad {
+		pats = []string{"."}
+		extraEnv = []string{"GOOS=js", "GOARCH=wasm"}
+	}
 	e, err := LoadEngine(pats, extraEnv)
 	if err != nil {
 		fmt.Printf("UNDECIDED property=%s: cannot load the repository: %v\n", id, err)
@@ -164,7 +168,18 @@ func cmdCheck(args []string) int {
 	if tier == "thorough" {
 		run.Timeout = 90 * time.Second
 	}
-	if len(e.Errors) > 0 {
+	if def.WasmLoad {
+		// obligation 0: the package type-checks for GOOS=js GOARCH=wasm (which includes `*wScreen implements screenImpl`,
+		// checked by the assignment in NewTerminfoScreen)
+		g := run.AddObligation("tcell/js-wasm/type-checks", "compile", BoolT(len(e.Errors) == 0), "the package compiles for GOOS=js GOARCH=wasm against the common Screen interface")
+		g.ReplayGo = "//verif:wasmbuild\n"
+		if len(e.Errors) > 0 {
+			discharge(run.Groups, DischargeOpts{Timeout: run.Timeout, Seed: seed, Par: 14, ModelTerms: defaultModelTerms})
+			g.Model = map[string]string{"type errors": strings.Join(e.Errors, "; ")}
+			g.RawOut = strings.Join(e.Errors, "\n")
+			return finishCheck(run, t0, update)
+		}
+	} else if len(e.Errors) > 0 {
 		run.Errors = append(run.Errors, "package load errors: "+strings.Join(e.Errors, "; "))
 	}
 	for _, k := range def.Funcs {
